@@ -183,7 +183,7 @@ class Events:
         self.try_paths = []      # (function, line, caught exception names): the try body was taken, the handlers were not analysed
 
 
-NP_UNARY = {"sqrt", "abs", "absolute", "sign", "log", "exp", "cos", "sin", "deg2rad", "square"}
+NP_UNARY = {"sqrt", "abs", "absolute", "sign", "log", "exp", "cos", "sin", "deg2rad", "square", "log1p", "expm1"}
 
 
 class Interp:
@@ -1629,9 +1629,15 @@ class GvnDomain:
             return A.abs(a)
         if fn == "sign":
             return A.signfn(a)
+        if fn == "log1p":           # exact value: log(1 + a)   (what it costs in floating point is the rounding domain's business)
+            return self.func1("log", A.add(A.const(1), a))
+        if fn == "expm1":
+            return A.sub(self.func1("exp", a), A.const(1))
         if fn in ("log", "exp", "cos", "sin", "deg2rad"):
             if a.is_zero() and fn != "log":
                 return A.const({"exp": 1, "cos": 1, "sin": 0, "deg2rad": 0}[fn])
+            if fn == "log" and a.const_value() == 1:
+                return A.const(0)
             return A.opaque(fn, [a], positive=(fn == "exp"))
         raise AnalysisError("unsupported function %s" % fn)
 
